@@ -59,54 +59,63 @@ def run(ctx, rep):
 
 
 def r161(ctx, rep):
+    from .c15 import returned_names
     for q in PUBLIC[:3]:
         f = ctx.func(q)
         cfg = ctx.cfg(f)
-        chk = [n for n in cfg.nodes if n.kind == "stmt" and isinstance(n.ast, ast.Assign) and any(isinstance(t, ast.Name) and t.id == "step_base" for t in n.ast.targets)]
-        if not chk:
-            rep.bad("R16.1", f"{f.local} checkpoint")
-            rep.finding("R16.1", f, "no checkpoint", f.node.lineno, "the solver improves the boundary solution without keeping a checkpoint of the truncated-CG step")
-            continue
-        c = chk[0]
-        if not (_short(c.ast.value) == "copy" and norm(c.ast.value.args[0]) == "step"):
-            rep.bad("R16.1", f"{f.local} checkpoint copy")
-            rep.finding("R16.1", f, norm(c.ast), c.line, "the checkpoint is not a copy of the iterate (it would change with it)")
+        rv = returned_names(f)
+        var = rv[0] if rv and rv[0] else None
+        if var is None:
+            raise AnalysisError(f"{f.local}: returned iterate not found")
+        # checkpoints: X = copy(<iterate>) that are later restored (<iterate> = X)
+        copies = {}
+        for n in cfg.nodes:
+            if n.kind == "stmt" and isinstance(n.ast, ast.Assign) and len(n.ast.targets) == 1 and isinstance(n.ast.targets[0], ast.Name):
+                v = n.ast.value
+                is_copy = (_short(v) == "copy" and v.args and norm(v.args[0]) == var) or (isinstance(v, ast.Call) and isinstance(v.func, ast.Attribute) and v.func.attr == "copy" and norm(v.func.value) == var) or (_short(v) == "array" and v.args and norm(v.args[0]) == var)
+                if is_copy:
+                    copies.setdefault(n.ast.targets[0].id, n)
+        improves = any(isinstance(w, ast.While) for w in ast.walk(f.node)) and any(mentions(x, "improve_tcg") for x in ast.walk(f.node))
         restores = []
         for n in cfg.nodes:
-            if n.kind == "test" and isinstance(n.ast, ast.If) and any(isinstance(s, ast.Assign) and norm(s) == "step = step_base" for s in n.ast.body):
-                restores.append(n)
+            if n.kind == "test" and isinstance(n.ast, ast.If):
+                for s_ in n.ast.body:
+                    if isinstance(s_, ast.Assign) and len(s_.targets) == 1 and norm(s_.targets[0]) == var and isinstance(s_.value, ast.Name) and s_.value.id in copies:
+                        restores.append((n, s_.value.id))
         desc = f"{f.local}: guarded restore of the checkpoint"
         if not restores:
+            if not improves:
+                raise AnalysisError(f"{f.local}: no boundary-improvement phase found")
             rep.bad("R16.1", desc)
-            rep.finding("R16.1", f, "no `if ...: step = step_base`", c.line, "the improved step is never compared with the checkpoint: the solver may return a step worse than the truncated-CG one")
+            rep.finding("R16.1", f, f"no `if ...: {var} = <checkpoint>`", f.node.lineno,
+                        "the solver improves the boundary solution but never compares the improved step with a checkpoint copy of the truncated-CG step: it may return a worse step")
             continue
-        r = restores[0]
+        r, ck = restores[0]
+        c = copies[ck]
         probs = []
         if not cfg.postdominates(r.id, c.id):
             probs.append("some path from the checkpoint to the return skips the comparison")
         p = _cmp_parts(r.ast.test)
-        if not p or p[1] not in (">", ">="):
-            probs.append(f"the comparison `{norm(r.ast.test)[:60]}` does not restore when the new value is larger (expected `>`)")
+        if not p or p[1] not in (">", ">=", "<", "<="):
+            probs.append(f"the test `{norm(r.ast.test)[:60]}` is not a comparison of two objective values")
         else:
-            ln = expand_names(f, p[0])
-            rn = expand_names(f, p[2])
-            if "step_base" in ln or "step" not in ln:
-                probs.append("the left side of the comparison is not the objective at the improved step")
-            if "step_base" not in rn:
-                probs.append("the right side of the comparison is not the objective at the checkpoint")
-            # same objective on both sides: same callee names
-            lc = {_short(x) or "" for x in ast.walk(p[0]) if isinstance(x, ast.Call)}
-        # the objective on both sides uses the original data, not the updated gradient
-        if q != PUBLIC[2] and p:
-            txt = norm(r.ast.test)
-            if "grad_orig" not in txt and "grad_orig" not in " ".join(sorted(expand_names(f, p[2]) | expand_names(f, p[0]))):
-                probs.append("the comparison does not use the original gradient (grad_orig)")
+            l, op, rr = p
+            if op in ("<", "<="):
+                from ..astutil import FLIP
+                l, op, rr = rr, FLIP[op], l
+            ln = expand_names_generic(f, l, {var, ck})
+            rn = expand_names_generic(f, rr, {var, ck})
+            if ck in ln or var not in ln or ck not in rn:
+                if ck in ln and var in rn and ck not in rn:
+                    probs.append("the comparison restores the checkpoint when the improved objective is SMALLER (the solvers minimise: restore when it is larger)")
+                else:
+                    probs.append("the comparison is not between the objective at the improved step and the objective at the checkpoint")
         if probs:
             rep.bad("R16.1", desc)
             rep.finding("R16.1", f, norm(r.ast.test)[:120], r.line, "; ".join(probs))
         else:
             rep.ok("R16.1", desc + f" `{norm(r.ast.test)[:60]}`")
-        # nothing modifies step between the restore test and the return
+        # nothing modifies the iterate between the comparison and the return
         after = cfg.reachable(r.id, skip_exc=True)
         for n in cfg.nodes:
             if n.id in after and n.id != r.id and n.kind == "stmt" and isinstance(n.ast, (ast.Assign, ast.AugAssign)):
@@ -114,9 +123,25 @@ def r161(ctx, rep):
                 base = tg
                 while isinstance(base, ast.Subscript):
                     base = base.value
-                if isinstance(base, ast.Name) and base.id == "step" and norm(n.ast) != "step = step_base":
-                    rep.bad("R16.1", f"{f.local}:{n.line} step modified after the comparison")
+                if isinstance(base, ast.Name) and base.id == var and not (isinstance(n.ast, ast.Assign) and isinstance(n.ast.value, ast.Name) and n.ast.value.id == ck):
+                    rep.bad("R16.1", f"{f.local}:{n.line} iterate modified after the comparison")
                     rep.finding("R16.1", f, norm(n.ast)[:80], n.line, "the iterate is modified after it has been compared with the checkpoint")
+
+
+def expand_names_generic(f, e, keep, depth=3):
+    """names an expression depends on; locals other than `keep` are expanded
+    through all their definitions"""
+    names = {n.id for n in ast.walk(e) if isinstance(n, ast.Name)}
+    if depth <= 0:
+        return names
+    out = set(names)
+    for nm in names:
+        if nm in keep:
+            continue
+        for d in ast.walk(f.node):
+            if isinstance(d, ast.Assign) and any(isinstance(t, ast.Name) and t.id == nm for t in d.targets):
+                out |= expand_names_generic(f, d.value, keep, depth - 1)
+    return out
 
 
 def r162(ctx, rep):
